@@ -216,10 +216,14 @@ class CRS:
 
         if self.projected:
             _dir_renames = {"north": "y", "south": "y", "east": "x", "west": "x"}
+            axes = self._crs.axis_info
             units = {
                 _dir_renames.get(ax.direction, ax.direction): ax.unit_name
-                for ax in self._crs.axis_info
+                for ax in axes
             }
+            if len(units) < 2 and len(axes) >= 2:
+                # polar stereographic: both axes point "north" (or "south"), go by position
+                return axes[1].unit_name, axes[0].unit_name
             return units.get("y", ""), units.get("x", "")
 
         raise ValueError("Neither projected nor geographic")  # pragma: no cover
